@@ -111,7 +111,7 @@ PROPS = {
         "level": "proof",
         "race": True,
         "extract": ["Service", "Signals"],
-        "extra_modules": ["QiVerif.Props.C16Add", "QiVerif.Tie.UpdateLoop"],
+        "extra_modules": ["QiVerif.Props.C16Add", "QiVerif.Props.C16Mailbox", "QiVerif.Tie.UpdateLoop"],
         "rule": "random histories (8-32 operations each) of Add / Remove (live, already removed, unknown id) / remote call "
                 "/ remote terminate (own id, 0, wrong id) / subscribe (one connection per subscriber) on a real service "
                 "hosted by a real server, followed by state snapshots (invocation and OnTerminate counters per object "
@@ -412,7 +412,8 @@ PROPS = {
     "C12": {
         "level": "proof",
         "race": True,
-        "extract": ["Mailbox", "Signals", "Endpoint", "Queues"],
+        "extract": ["Mailbox", "Signals", "Endpoint", "Queues", "Service"],
+        "extra_modules": ["QiVerif.Props.C16Mailbox", "QiVerif.Tie.C16"],
         "rule": "per scenario a child process (4 GiB address-space ceiling) runs a directory server with a PingPong and a Bomb "
                 "service on a unix socket; a hostile authenticated client sends: valid mixed traffic; 40 repeated / "
                 "conflicting / foreign (un)subscriptions incl. the same id twice and wrong object ids; 200 raw frames of "
